@@ -96,6 +96,19 @@ func smallAlphabet() (out []entry) {
 	return out
 }
 
+// tinyAlphabet is used for the deepest tables of the thorough tier (CNAME
+// chains and cycles of length 4 and 5 through exact and wildcard entries).
+func tinyAlphabet() (out []entry) {
+	pats := []string{"a.test", "x.a.test", "*.test", "*.a.test", "*.b.test"}
+	ans := []string{"1.1.1.1", "a.test", "x.a.test", "x.b.test", "y.a.test"}
+	for _, p := range pats {
+		for _, a := range ans {
+			out = append(out, entry{p, a})
+		}
+	}
+	return out
+}
+
 type query struct {
 	Host string
 	QT   uint16
@@ -444,7 +457,7 @@ type plan struct {
 func hostPlans(tier string) []plan {
 	full, small := alphabet(), smallAlphabet()
 	if tier == "thorough" {
-		return []plan{{full, 1}, {full, 2}, {full, 3}, {full, 4}}
+		return []plan{{full, 1}, {full, 2}, {full, 3}, {full, 4}, {tinyAlphabet(), 5}}
 	}
 	return []plan{{full, 1}, {full, 2}, {full, 3}, {small, 4}}
 }
@@ -572,7 +585,7 @@ func main() {
 				"distinct_nontrivial":              m.Distinct["nontrivial"],
 				"distinct_wire_outcomes":           m.Distinct["wire"],
 				"order_dependent_cname_tie_exempt": m.Counters["order_dependent_cname_tie_exempt"],
-				"rule": "part 1: every ordered table of <=3 entries over 7 patterns (a.test b.test x.a.test *.test *.a.test *.b.test *.x.a.test) x 11 answers (1.1.1.1 2.2.2.2 ::1 A AAAA a.test b.test x.a.test x.b.test y.a.test c.other) + wildcard-onto-itself = 81 entries (thorough: <=4), plus size 4 over a 35-entry sub-alphabet in quick; 9 names x A/AAAA/TXT; every permutation is a fresh filtering.New and must agree with the others. part 2: ordered tables of <=2 entries (thorough: + 3 over the sub-alphabet) through dnsforward with a mock upstream in 3 modes. non-trivial = distinct resolution path shapes (kind/exactness/shadowing/tie per step and final outcome, per query type) of queries matched by the table",
+				"rule": "part 1: every ordered table of <=3 entries over 7 patterns (a.test b.test x.a.test *.test *.a.test *.b.test *.x.a.test) x 11 answers (1.1.1.1 2.2.2.2 ::1 A AAAA a.test b.test x.a.test x.b.test y.a.test c.other) + wildcard-onto-itself = 81 entries, plus size 4 over a 35-entry sub-alphabet (thorough: <=4 over the 81 entries plus size 5 over a 25-entry sub-alphabet); 9 names x A/AAAA/TXT; every permutation is a fresh filtering.New and must agree with the others. part 2: tables of <=2 entries over the 81 entries and of 3 over the 35-entry sub-alphabet (thorough: <=3 over the 81), each in 2 orders, x the same queries, through dnsforward with a mock upstream in 3 modes. non-trivial = distinct resolution path shapes (kind/exactness/shadowing/tie per step and final outcome, per query type) of queries matched by the table",
 			}
 		},
 		Assumptions: []string{
